@@ -24,7 +24,7 @@ META = {
             "descending, stepped, expression steps, negative bounds, triangular, derived locals, parameters defined by "
             "expressions, declaration order different from definition order; both dependency back-ends) and TLC validates "
             "uniqueness per class and that the printed key names the class and the parameter values.",
-    "note": "quick: 200 task classes (~1500 instances), thorough: 1500 classes; ranges bounded by N<=4, M<=3. Keys are "
+    "note": "quick: 120 task classes (~900 instances), thorough: 1500 classes; ranges bounded by N<=4, M<=3. Keys are "
             "observed right after internal_init (independent of whether the tasks then run). Trusted: the space enumeration "
             "is re-derived by TLC from the AST (KeysDone demands done = Space).",
     "technique": "TLA+ model of the key scheme (TLC) + real make_key/key_print over the enumerated space + trace validation",
@@ -32,7 +32,7 @@ META = {
 
 
 def run(ctx):
-    n = 200 if ctx.quick else 1500
+    n = 120 if ctx.quick else 1500
     ents = jdfgen.key_programs(2300 + ctx.seed, n)
     ctx.extra["classes"] = sum(len(e["tags"]) for e in ents)
     ctx.extra["instances"] = sum(e["ntasks"] for e in ents)
